@@ -208,7 +208,9 @@ pub fn scaled(args: &vcommon::Args, quick: u64, thorough: u64) -> u64 {
 }
 
 pub fn scale_pct(args: &vcommon::Args) -> u64 {
-    args.extra.get("scale").and_then(|s| s.parse::<u64>().ok()).unwrap_or(100).clamp(1, 1000)
+    // Quick tier runs at 30 % of the originally calibrated workload (≈ 20–40 s on 16 idle cores).
+    let default = if args.is_thorough() { 100 } else { 30 };
+    args.extra.get("scale").and_then(|s| s.parse::<u64>().ok()).unwrap_or(default).clamp(1, 1000)
 }
 
 /// `require` thresholds shrink with the workload.
